@@ -10,6 +10,7 @@ import (
 	"os"
 	"sort"
 	"strings"
+	"time"
 
 	"github.com/sourcenetwork/defradb/client"
 	"github.com/sourcenetwork/defradb/verif/cluster"
@@ -28,7 +29,7 @@ type schemaRoute struct {
 	Calls [][]string `json:"calls"`
 }
 
-const docSDL = "type D {\n s: String\n i: Int\n f: Float\n b: Boolean\n}"
+const docSDL = "type D {\n s: String\n i: Int\n f: Float\n b: Boolean\n t: DateTime\n}"
 
 // SDL of each type of each graph.
 var graphs = map[string]map[string]string{
@@ -46,6 +47,10 @@ var graphs = map[string]map[string]string{
 		"A": "type A {\n name: String\n b: B @primary @relation(name: \"a_b\")\n b2: B @relation(name: \"b_a\")\n c: C @primary @relation(name: \"a_c\")\n}",
 		"B": "type B {\n name: String\n a: A @relation(name: \"a_b\")\n a2: A @primary @relation(name: \"b_a\")\n}",
 		"C": "type C {\n name: String\n a: A @relation(name: \"a_c\")\n}"},
+	"mixedself": {
+		"Book":  "type Book {\n title: String\n}",
+		"User":  "type User {\n name: String\n boss: User @primary @relation(name: \"boss_minion\")\n minion: User @relation(name: \"boss_minion\")\n}",
+		"Shelf": "type Shelf {\n label: String\n n: Int\n}"},
 	"four": {
 		"A": "type A {\n name: String\n b: B @primary @relation(name: \"a_b\")\n b2: B @relation(name: \"b_a\")\n cs: [C]\n}",
 		"B": "type B {\n name: String\n a: A @relation(name: \"a_b\")\n a2: A @primary @relation(name: \"b_a\")\n}",
@@ -67,12 +72,14 @@ func typed(f, v string) any {
 		return x
 	case "b":
 		return v == "true"
+	case "t":
+		return v
 	}
 	return nil
 }
 
 func gqlLit(f, v string) string {
-	if f == "s" {
+	if f == "s" || f == "t" {
 		return fmt.Sprintf("%q", v)
 	}
 	return v
@@ -165,7 +172,7 @@ func main() {
 					continue
 				}
 				docID = doc.ID().String()
-			case "map":
+			case "map", "maptime":
 				m := map[string]any{}
 				for _, f := range r.Order {
 					v := r.Content[f]
@@ -176,6 +183,14 @@ func main() {
 						continue
 					}
 					m[f] = typed(f, v)
+					if f == "t" && r.Via == "maptime" {
+						tv, perr := time.Parse(time.RFC3339, v)
+						if perr != nil {
+							fmt.Fprintln(os.Stderr, "bad time in route table:", perr)
+							os.Exit(2)
+						}
+						m[f] = tv
+					}
 				}
 				doc, err := client.NewDocFromMap(m, col.Definition())
 				if err == nil {
